@@ -24,6 +24,7 @@ type boundsRun struct {
 	riMemo  map[*ssa.Function]bool
 	lcMemo  map[*ssa.Function]*lenContract
 	lcBusy  map[*ssa.Function]bool
+	nnMemo  map[nnKey]int // 0 unknown, 1 result shown >= 0, 2 not shown, 3 in progress
 	w       *World
 	mem     *memInfo
 	provers map[*ssa.Function]*bprover
@@ -576,4 +577,73 @@ func (br *boundsRun) lenContract(f *ssa.Function) (lenContract, bool) {
 		}
 	}
 	return lenContract{}, false
+}
+
+// nonNegResult: integer result number idx of a library function is shown
+// to be non-negative at every return by the function's own prover; for an
+// interface call every callee in the call graph must have the property.
+type nnKey struct {
+	f   *ssa.Function
+	idx int
+}
+
+func (br *boundsRun) nonNegResult(f *ssa.Function, idx int) bool {
+	if br.nnMemo == nil {
+		br.nnMemo = map[nnKey]int{}
+	}
+	k := nnKey{f, idx}
+	switch br.nnMemo[k] {
+	case 1:
+		return true
+	case 2, 3:
+		return false
+	}
+	br.nnMemo[k] = 3
+	ok := func() bool {
+		if f.Blocks == nil || !isLibPkg(fnPkgPath(f)) {
+			return false
+		}
+		res := f.Signature.Results()
+		if idx >= res.Len() || !isIntType(res.At(idx).Type()) {
+			return false
+		}
+		p := br.prover(f)
+		n := 0
+		for _, b := range f.Blocks {
+			if len(b.Instrs) == 0 {
+				continue
+			}
+			ret, isRet := b.Instrs[len(b.Instrs)-1].(*ssa.Return)
+			if !isRet {
+				continue
+			}
+			n++
+			if !p.proveAt(b, p.linOf(ret.Results[idx])) {
+				return false
+			}
+		}
+		return n > 0
+	}()
+	if ok {
+		br.nnMemo[k] = 1
+	} else {
+		br.nnMemo[k] = 2
+	}
+	return ok
+}
+
+func (br *boundsRun) nonNegCall(call *ssa.Call, idx int) bool {
+	if c := call.Call.StaticCallee(); c != nil {
+		return br.nonNegResult(c, idx)
+	}
+	callees := br.w.Callees(call)
+	if len(callees) == 0 {
+		return false
+	}
+	for _, c := range callees {
+		if !br.nonNegResult(c, idx) {
+			return false
+		}
+	}
+	return true
 }
